@@ -163,12 +163,17 @@ def hand_enums(meta):
     # __new__, methods / properties / class attributes on the enum, aliases
     from enum import Enum
 
-    ns = {"IntEnum": IntEnum, "Enum": Enum, "meta": meta}
+    from enum import auto
+
+    ns = {"IntEnum": IntEnum, "Enum": Enum, "meta": meta, "auto": auto}
     exec(EXOTIC_SRC, ns)
     out.append(("WithLabel", ns["WithLabel"], {0: "STAND", 1: "CHAIR", 2: "FLOOR"}))
     out.append(("WithMethods", ns["WithMethods"], {1: "Low", 5: "High"}))
     out.append(("Classic", ns["Classic"], {1: "Red", 2: "Green"}))
     out.append(("Friendly", ns["Friendly"], {3: "Cat", 4: "Dog"}))
+    out.append(("WithInit", ns["WithInit"], {0: "DOWN", 1: "LEFT", 2: "UP", 3: "RIGHT"}))
+    out.append(("WithMissing", ns["WithMissing"], {1: "One", 2: "Two"}))
+    out.append(("Auto", ns["Auto"], {1: "First", 2: "Second", 3: "Third"}))
     # declarations through the functional API of a member-less base (the branch of the metaclass call that
     # takes names): ordinals are start + position (start defaults to 1), or the values given
     out.append(("Func0", ns["Func0"], {0: "A", 1: "B", 2: "C"}))
@@ -226,6 +231,34 @@ class Friendly(IntEnum, metaclass=meta):
 
     def __repr__(self):
         return "<Friendly %s>" % self.name
+
+
+class WithInit(IntEnum, metaclass=meta):
+    """Per-member data set up in __init__ from a table that only knows the declared ordinals."""
+    DOWN = 0
+    LEFT = 1
+    UP = 2
+    RIGHT = 3
+
+    def __init__(self, value):
+        self.dx, self.dy = {0: (0, 1), 1: (-1, 0), 2: (0, -1), 3: (1, 0)}[value]
+
+
+class WithMissing(IntEnum, metaclass=meta):
+    """A _missing_ hook that declines (returns None, what Enum's own does)."""
+    One = 1
+    Two = 2
+
+    @classmethod
+    def _missing_(cls, value):
+        cls.asked = getattr(cls, "asked", 0) + 1
+        return None
+
+
+class Auto(IntEnum, metaclass=meta):
+    First = auto()
+    Second = auto()
+    Third = auto()
 
 
 class FuncBase(IntEnum, metaclass=meta):
